@@ -167,13 +167,40 @@ static void LimitStack()
 	}
 }
 
-// dsl_eval src=<hex> [ast=<hex>]   -- evaluates twice (determinism) and prints the observation
+struct EvalArg { const std::string *src; EvalOut o1, o2; };
+static void *EvalThreadMain(void *p)
+{
+	EvalArg *ea = static_cast<EvalArg *>(p);
+	ea->o1 = EvalOnce(*ea->src);
+	ea->o2 = EvalOnce(*ea->src);
+	return nullptr;
+}
+
+// dsl_eval src=<hex> [ast=<hex>] [mode=main|thread|coro]  -- evaluates twice (determinism) and prints the observation;
+// mode = the stack the evaluation runs on (main thread / 512 KiB thread / coroutine of IoEngine's size with a guard page)
 VOP(dsl_eval)
 {
 	LimitStack();
 	std::string src = HexDec(a.str("src", "-"));
-	EvalOut o1 = EvalOnce(src);
-	EvalOut o2 = EvalOnce(src);
+	std::string mode = a.str("mode", "main");
+	EvalArg ea{&src, {}, {}};
+	if (mode == "coro") {
+		typedef boost::coroutines::asymmetric_coroutine<void>::pull_type Pull;
+		typedef boost::coroutines::asymmetric_coroutine<void>::push_type Push;
+		Pull co([&](Push&) { EvalThreadMain(&ea); }, boost::coroutines::attributes(IoEngine::GetCoroutineStackSize()),
+			boost::coroutines::protected_stack_allocator());
+	} else if (mode == "thread") {
+		pthread_attr_t attr;
+		pthread_attr_init(&attr);
+		pthread_attr_setstacksize(&attr, 512 * 1024);
+		pthread_t th;
+		pthread_create(&th, &attr, EvalThreadMain, &ea);
+		pthread_join(th, nullptr);
+	} else {
+		EvalThreadMain(&ea);
+	}
+	EvalOut& o1 = ea.o1;
+	EvalOut& o2 = ea.o2;
 	for (auto& l : o1.lines) Out(l);
 	Out(std::string("det ") + (o1.lines == o2.lines ? "1" : "0"));
 }
